@@ -6,6 +6,7 @@ import ast as stdlib_ast
 import inspect
 from collections.abc import Generator
 from contextlib import contextmanager, suppress
+from copy import copy
 from typing import Any
 
 from ..config import ParserConfig
@@ -200,7 +201,7 @@ class ParserEngine(ParserCore, CanParse):
 
             node = self.func_call(ri)
             node = self.semantics_call(ri, node, pos=key.pos)
-            self.set_parseinfo(node, ri.name, key.pos)
+            node = self.set_parseinfo(node, ri.name, key.pos)
 
             result = RuleResult(node, self.pos)
             self.memoize(key, result)
@@ -268,14 +269,19 @@ class ParserEngine(ParserCore, CanParse):
             alerts=self.state.alerts,
         )
 
-    def set_parseinfo(self, node: Any, name: str, pos: int):
+    def set_parseinfo(self, node: Any, name: str, pos: int) -> Any:
         parseinfo = self.make_parseinfo(name, pos)
         if parseinfo is None:
-            return
+            return node
         elif hasattr(node, 'set_parseinfo'):
+            # NOTE: an AST handed on by another rule may be shared (memos, the
+            #   caller's cst): the record of this rule goes on a copy of it
+            if isinstance(node, AST) and node.get('parseinfo') is not None:
+                node = copy(node)
             node.set_parseinfo(parseinfo)
         elif hasattr(node, 'parseinfo'):
             node.parseinfo = parseinfo
+        return node
 
     def save_result(self, key: MemoKey, result: RuleResult) -> None:
         if islist(result.node):
